@@ -296,6 +296,12 @@ def run(repo, rep, tier):
                 if isinstance(x, ast.Raise) and x.exc is not None:
                     c = x.exc.func if isinstance(x.exc, ast.Call) else x.exc
                     raised.add((dotted(c) or '').split('.')[-1])
+                elif not isinstance(x, (ast.If, ast.For, ast.While, ast.Try,
+                                        ast.With)):
+                    # a validating helper called in the loop raises it
+                    raised |= {e_.exc for e_ in
+                               ea.esc_stmt(f, x, None).values()
+                               if judged(e_)}
             if raised & excs:
                 return True
         return False
@@ -312,6 +318,7 @@ def run(repo, rep, tier):
             r1.ob(True, f.qualname + ':no-write')
             continue
         bad = []
+        fin_bad = set()
         for w in wstmts:
             reach = cfg.reachable(w)
             for s in simple:
@@ -334,6 +341,27 @@ def run(repo, rep, tier):
                     continue
                 if esc:
                     bad.append((w, s, esc[0]))
+        # a write in a `finally` block also runs when the protected
+        # statements refuse the operation: the failed call changes the
+        # repository although nothing comes 'after' the write
+        for t in walk_no_nested(f.node):
+            if not (isinstance(t, ast.Try) and t.finalbody):
+                continue
+            fin = [x for b in t.finalbody for x in ast.walk(b)
+                   if isinstance(x, ast.stmt) and x in wstmts]
+            if not fin:
+                continue
+            prot = [x for b in t.body + t.orelse +
+                    [y for h in t.handlers for y in h.body]
+                    for x in ast.walk(b) if isinstance(x, ast.stmt) and
+                    x in simple]
+            for s in prot:
+                esc = [e for e in ea.esc_stmt(f, s, None).values()
+                       if judged(e)]
+                if esc:
+                    bad.append((fin[0], s, esc[0]))
+                    fin_bad.add(id(s))
+                    break
         r1.ob(not bad, f.qualname,
               {'function': f.qualname,
                'writes': [norm(w, 70) for w in wstmts][:4],
@@ -345,6 +373,16 @@ def run(repo, rep, tier):
                 continue
             seen.add(key)
             loop = s is w
+            if id(s) in fin_bad:
+                rep.finding(r1, f.qualname, norm(w, 70),
+                            'write-in-finally', f.file, w.lineno,
+                            'this repository write is in a finally block: '
+                            'it is also carried out when the protected '
+                            'statement %s refuses the operation (%s from '
+                            '%s), so the failed call changes the repository'
+                            % (norm(s, 50), e.exc, e.func),
+                            path=list(e.chain) + [e.func])
+                continue
             rep.finding(r1, f.qualname, norm(s, 70),
                         'loop' if loop else 'raise-after-write', f.file,
                         s.lineno,
@@ -426,11 +464,26 @@ def list_composition(func, name, before, depth=0):
             return list_composition(func, e.id, before, d + 1)
         return [('unknown', e)]
     out = []
-    limit = getattr(before, 'lineno', 10 ** 9)
-    stmts = sorted((n for n in walk_no_nested(func.node)
-                    if isinstance(n, ast.stmt) and
-                    getattr(n, 'lineno', 0) < limit),
-                   key=lambda n: (n.lineno, n.col_offset))
+    # statements in execution (pre-)order of the tree, up to `before` - not
+    # by line number: inlined helper bodies keep the line numbers of the
+    # helper
+    seq = []
+
+    def dfs(n):
+        for fld in ('body', 'orelse', 'handlers', 'finalbody'):
+            for c in getattr(n, fld, None) or []:
+                if isinstance(c, (ast.FunctionDef, ast.AsyncFunctionDef,
+                                  ast.ClassDef)):
+                    continue
+                if isinstance(c, ast.stmt):
+                    seq.append(c)
+                dfs(c)
+    dfs(func.node)
+    stmts = []
+    for n in seq:
+        if n is before:
+            break
+        stmts.append(n)
     enclosing = {}
     for lp_ in walk_no_nested(func.node):
         if isinstance(lp_, ast.For):
@@ -582,6 +635,17 @@ def validated_entry_is_deleted_last(repo, rep):
                     [norm(e) for e in lp.target.elts] == [s_txt, x_txt] and \
                     isinstance(lp.iter, ast.Name):
                 lst = lp.iter.id
+                for _ in range(3):
+                    # through locals that only rename the list (the result
+                    # temporary of an inlined helper)
+                    ds_ = [n_.value for n_ in walk_no_nested(f.node)
+                           if isinstance(n_, ast.Assign) and
+                           len(n_.targets) == 1 and
+                           norm(n_.targets[0]) == lst]
+                    if len(ds_) == 1 and isinstance(ds_[0], ast.Name):
+                        lst = ds_[0].id
+                    else:
+                        break
                 fills = [(s2, c2) for s2 in fx
                          if not isinstance(s2, (ast.If, ast.For, ast.While,
                                                 ast.Try, ast.With))
@@ -682,7 +746,14 @@ def write_loops_are_duplicate_free(repo, rep, rid='C11.R3'):
                 continue
             return False
         return True
-    for f in cls.methods.values():
+    from ..inline import Flat
+    set_helpers = tuple(n_ for n_, h_ in cls.methods.items()
+                        if n_.startswith('_') is False and False) + tuple(
+        n_ for n_, h_ in cls.methods.items() if set_built(h_))
+    for f0 in cls.methods.values():
+        # with private helpers inlined - except those that build a set,
+        # which are what the rule looks for
+        f = Flat(f0, keep=set_helpers)
         for lp in walk_no_nested(f.node):
             if not isinstance(lp, ast.For):
                 continue
